@@ -98,11 +98,13 @@ def main():
     if bad:
         broken.append("gate: forbidden construct %r" % (bad[0],))
     gen_ok, gen_log = True, ""
-    if hasattr(mod, "regenerate"):
-        try:
+    try:
+        import extract_consts
+        extract_consts.main()
+        if hasattr(mod, "regenerate"):
             mod.regenerate(ctx)
-        except Exception:
-            gen_ok, gen_log = False, traceback.format_exc()
+    except Exception:
+        gen_ok, gen_log = False, traceback.format_exc()
     obligations.append(("gen:constants-extracted-from-source", gen_ok, gen_log[-2000:]))
     if not gen_ok:
         broken.append("gen: constant extraction from /repo failed")
